@@ -298,18 +298,30 @@ class BaseKFACPreconditioner:
             )
             compute_inverses = False  # Cannot be computed if no layers
         if compute_inverses:
-            for name, layer in self._layers.values():
+            # Same work placement as the inverse phase of step(): inverses
+            # are computed on the assigned worker and only communicated
+            # within the gradient worker group of the layer.
+            for name, layer in reversed(list(self._layers.values())):
                 if layer.a_factor is None or layer.g_factor is None:
                     # State was saved before the factors were first computed
                     # so there is nothing to invert yet.
                     continue
-                layer.compute_a_inv(damping=self.damping)
-                layer.compute_g_inv(damping=self.damping)
-                if self._assignment.broadcast_inverses():
+                if get_rank() == self._assignment.inv_worker(name, 'A'):
+                    layer.compute_a_inv(damping=self.damping)
+                if (
+                    self._assignment.broadcast_inverses()
+                    and self._assignment.is_grad_worker(name)
+                ):
                     layer.broadcast_a_inv(
                         src=self._assignment.inv_worker(name, 'A'),
                         group=self._assignment.grad_worker_group(name),
                     )
+                if get_rank() == self._assignment.inv_worker(name, 'G'):
+                    layer.compute_g_inv(damping=self.damping)
+                if (
+                    self._assignment.broadcast_inverses()
+                    and self._assignment.is_grad_worker(name)
+                ):
                     layer.broadcast_g_inv(
                         src=self._assignment.inv_worker(name, 'G'),
                         group=self._assignment.grad_worker_group(name),
